@@ -152,6 +152,15 @@ func declFor(id string) (string, bool) {
 	if s, t, ok := cut("two_"); ok {
 		return fmt.Sprintf("fn two_%s(a: %s, b: %s) -> %s { return a; }", s, t, t, t), true
 	}
+	if s, t, ok := cut("mres0_"); ok {
+		return fmt.Sprintf("fn (p: Pt) mres0_%s() -> str ! %s { return g_%s(); }", s, t, s), true
+	}
+	if s, t, ok := cut("res0_"); ok {
+		return fmt.Sprintf("fn res0_%s() -> str ! %s { return g_%s(); }", s, t, s), true
+	}
+	if s, t, ok := cut("res2_"); ok {
+		return fmt.Sprintf("fn res2_%s(v: i32, w: str) -> str ! %s { if v == 0 { return w!; } return g_%s(); }", s, t, s), true
+	}
 	if s, t, ok := cut("mres_"); ok {
 		return fmt.Sprintf("fn (p: Pt) mres_%s(v: i32) -> str ! %s { if v == 0 { return \"z\"!; } return g_%s(); }", s, t, s), true
 	}
@@ -224,6 +233,7 @@ type frag struct {
 	demand bool   // the violation exists only where a position demands typ
 	ret    string // statement: return type the enclosing function must have ("" = none needed)
 	term   bool   // statement ends in a return: nothing may follow in its block
+	tail   bool   // the violation exists only when the statement ends a function body
 	pre    string // statements that must open the innermost enclosing function body
 }
 
@@ -429,6 +439,9 @@ var contexts = []*cx{
 func apply(c *cx, fr frag, d int) (frag, bool) {
 	if fr.demand && !c.dem && !c.transp {
 		return fr, false
+	}
+	if fr.tail && c.kind == kSS && c.name != "funclit" {
+		return fr, false // wrapped in another statement it no longer ends the function body
 	}
 	return c.f(fr, d)
 }
@@ -675,6 +688,28 @@ func variants() []variant {
 		add(variant{rule: "returnmissing", form: "bare", ty: t, core: in(t, "i32", "str", "Pt", "bool"), mut: rt("return;", t), ctl: rt("return "+g(t)+";", t)})
 	}
 
+	// R11b: a path that reaches the end of a value-returning body (the return is there, but
+	// not on every path)
+	for _, t := range []string{"i32", "str", "Pt", "bool"} {
+		v := g(t)
+		for _, sh := range [][2]string{
+			{"ifonly", "if g_bool() { return V; }"},
+			{"ifelseif", "if g_bool() { return V; } else if g_bool() { return V; }"},
+			{"while", "while g_bool() { return V; }"},
+			{"foronly", "for fi in 0..3 { return V; }"},
+			{"forcontinue", "for fi in 0..3 { if g_bool() { continue; } return V; }"},
+			{"forin", "for fv in g_arr() { return V; }"},
+			{"whilebreak", "while true { if g_bool() { break; } return V; }"},
+			{"matchnodefault", "match g_i32() { 1 => { return V; } 2 => { return V; } }"},
+			{"nestedif", "if g_bool() { if g_bool() { return V; } } else { return V; }"},
+		} {
+			text := strings.ReplaceAll(sh[1], "V", v)
+			m := rt(text, t)
+			m.tail = true
+			add(variant{rule: "returnmissing", form: sh[0], ty: t, core: t == "i32", mut: m, ctl: rt(text+" return "+v+";", t)})
+		}
+	}
+
 	// R12: T? where T is required
 	for _, t := range []string{"i32", "i64", "f64", "str", "bool", "Pt", "En"} {
 		add(variant{rule: "optional", form: "direct", ty: t, core: in(t, "i32", "str", "Pt", "bool"), mut: dm("gopt_"+safe(t)+"()", t), ctl: ex(g(t), t)})
@@ -740,6 +775,12 @@ func variants() []variant {
 		add(variant{rule: "unhandled", form: "fn", ty: t, core: in(t, "i32", "str"), mut: ex("res_"+s+"(1)", t), ctl: ex("(res_"+s+"(1) catch "+x+")", t)})
 		add(variant{rule: "unhandled", form: "method", ty: t, core: t == "i32", mut: ex("g_Pt().mres_"+s+"(1)", t), ctl: ex("(g_Pt().mres_"+s+"(1) catch "+x+")", t)})
 		add(variant{rule: "unhandled", form: "stmt", ty: t, core: t == "i32", mut: st("res_" + s + "(1);"), ctl: st("res_" + s + "(1) catch " + x + ";")})
+		// callees of every arity: the check must not hang on the argument list
+		add(variant{rule: "unhandled", form: "fn0", ty: t, core: in(t, "i32", "str"), mut: ex("res0_"+s+"()", t), ctl: ex("(res0_"+s+"() catch "+x+")", t)})
+		add(variant{rule: "unhandled", form: "stmt0", ty: t, core: t == "i32", mut: st("res0_" + s + "();"), ctl: st("res0_" + s + "() catch " + x + ";")})
+		add(variant{rule: "unhandled", form: "method0", ty: t, core: t == "i32", mut: ex("g_Pt().mres0_"+s+"()", t), ctl: ex("(g_Pt().mres0_"+s+"() catch "+x+")", t)})
+		add(variant{rule: "unhandled", form: "fn2", ty: t, core: t == "i32", mut: ex("res2_"+s+"(1, \"w\")", t), ctl: ex("(res2_"+s+"(1, \"w\") catch "+x+")", t)})
+		add(variant{rule: "unhandled", form: "stmt2", ty: t, core: false, mut: st("res2_" + s + "(1, \"w\");"), ctl: st("res2_" + s + "(1, \"w\") catch " + x + ";")})
 	}
 
 	// R17: `!` error return from a non-result function
@@ -822,6 +863,7 @@ func Run(c *vl.Ctx) {
 					src, ok = build(v.mut, ch)
 					cf := v.ctl
 					cf.demand = v.mut.demand // same applicability as the mutant
+					cf.tail = v.mut.tail
 					csrc, cok = build(cf, ch)
 				}
 				if !ok || !cok {
